@@ -27,8 +27,9 @@
      25 number of subscriptions handed out   26 state.subscriptions after a step
      27 state.queries (refCounts) after a step *)
 From Coq Require Import String List ZArith NArith Bool Arith.
-From TM Require Import Common.Hex C19.Query C19.Model.
-(* EXECSEARCH From TM Require Export C19.ExecSearch. *)
+From TM Require Import Common.Hex.
+From TM Require Export C19.Query C19.Model.
+From TM Require Export C19.ExecSearch.
 Import ListNotations.
 
 Definition mism (b : bool) (code : N) : verdict := if b then V_ok else V_mismatch code.
